@@ -5,6 +5,7 @@ CONSTANTS
   ViewIds = {1, 2}
   MaxEvents = 4
   SharedSlot = FALSE
+  ArgAliased = FALSE
 INVARIANT ReadIsFilter
 INVARIANT SurvivorsInOrder
 INVARIANT EmptyInclude
